@@ -15,13 +15,14 @@ from ..verdict import Verdict
 ID = "C18"
 LEVEL = "exploration"
 RULE = (
-    "Hypothesis draws 2-3 masters on one axis (axis range, master positions and which master is the default are drawn), 1-3 glyphs of 1-3 shapes each "
+    "Hypothesis draws 2-3 masters on one axis (axis range, master positions and which master is the default are drawn) or, in a third of the cases, 3-4 masters on "
+    "two axes (one at both defaults, the others off the default on one axis, each free to leave out the axis it sits at the default of; listing order drawn), 1-3 glyphs of 1-3 shapes each "
     "from one shared structure (same polygon vertex counts, paint kinds, stops and colours; shapes pairwise non-congruent so that reuse decisions "
     "agree) with per-master vertex coordinates, gradient end points / circles and therefore bounds; metrics are drawn. The real CLI builds the "
     "variable font from a TOML and, separately, one static font per master. Oracle: at every master location the variable font's display tree "
     "(outlines through gvar, PaintVar* fields and ClipBox format 2 through our own VarStore evaluation) == the static build's tree (layer-wise, 1.5 "
     "unit extra budget for delta rounding) and the advances are equal; with no location the font equals the default master; at 5 further "
-    "locations the clip box in force contains the exact bounds of every outline at that location. Non-trivial: masters differ in an outline "
+    "locations per axis (and one off both axes) the clip box in force contains the exact bounds of every outline at that location. Non-trivial: masters differ in an outline "
     "coordinate and in a gradient coordinate (the COLR VarStore is non-empty)."
 )
 ASSUMPTIONS = ["fontTools glyph set interpolation (gvar/HVAR) and VarStoreInstancer are correct", "masters are compatible by construction; incompatible builds are discards"]
@@ -34,10 +35,22 @@ def setup_worker():
 
 
 @st.composite
-def vf_case(draw, tier):
+def vf_case(draw, tier, two_axes=False):
     nm = draw(st.integers(2, 3))
     positions = sorted(draw(st.lists(st.integers(100, 900), min_size=nm, max_size=nm, unique=True)))
     default_idx = draw(st.integers(0, nm - 1))
+    mpos = None
+    if two_axes:
+        # wght x wdth: one master at the default of both axes, every other master off the default on exactly one axis; a master
+        # may leave out the axis it is at the default of (the TOML allows it)
+        w0, d0 = draw(st.sampled_from([400, 300])), draw(st.sampled_from([100, 90]))
+        w1, d1 = draw(st.sampled_from([700, 900])), draw(st.sampled_from([75, 50, 125]))
+        mpos = [{"wght": w0, "wdth": d0}, {"wght": w1, "wdth": d0}, {"wght": w0, "wdth": d1}]
+        if draw(st.booleans()):
+            mpos.append({"wght": draw(st.sampled_from([100, 200])), "wdth": d0})
+        nm = len(mpos)
+        default_idx = 0
+        positions = [m["wght"] for m in mpos]
     upem = draw(st.sampled_from([1000, 1024, 2048]))
     asc = draw(st.integers(int(0.7 * upem), int(0.95 * upem)))
     desc = -draw(st.integers(int(0.05 * upem), int(0.3 * upem)))
@@ -66,13 +79,24 @@ def vf_case(draw, tier):
             shapes.append({"kind": kind, "color": color, "stops": stops, "masters": per_master, "spread": draw(st.sampled_from(["pad", "reflect"]))})
         glyphs.append({"cps": [0x1F600 + gi], "shapes": shapes})
     order = draw(st.permutations(list(range(nm))))
-    names = draw(st.permutations(["zeta", "alpha", "mid"]))[:nm]
-    return {"order": list(order), "names": list(names), "positions": positions, "default": default_idx, "metrics": {"upem": upem, "ascender": asc, "descender": desc, "width": width}, "glyphs": glyphs,
+    names = draw(st.permutations(["zeta", "alpha", "mid", "omega"]))[:nm]
+    case = {"order": list(order), "names": list(names), "positions": positions, "default": default_idx, "metrics": {"upem": upem, "ascender": asc, "descender": desc, "width": width}, "glyphs": glyphs,
             "clipbox_quantization": draw(st.sampled_from([None, None, 1, 10]))}
+    if mpos:
+        case["mpos"] = mpos
+        case["names"] = ["regular", "bold", "condensed", "thin"][:nm]
+        # the tool finds the default master by asking every master listed before it for all its positions: positions can only
+        # be left out by masters listed after the default master (anything else is refused, see judge)
+        case["omit_default_axes"] = [False] + [draw(st.booleans()) for _ in range(nm - 1)]
+        if any(case["omit_default_axes"]) or draw(st.booleans()):
+            case["order"] = [0] + list(draw(st.permutations(list(range(1, nm)))))
+        else:
+            case["order"] = list(draw(st.permutations(list(range(nm)))))
+    return case
 
 
 def cases(tier):
-    return vf_case(tier)
+    return st.one_of(vf_case(tier), vf_case(tier), vf_case(tier, two_axes=True))
 
 
 def svg_for(glyph, m):
@@ -118,10 +142,20 @@ def judge(case):
         for m in range(nm):
             for g in case["glyphs"]:
                 ws.write("m%d/%s" % (m, fname(g["cps"])), svg_for(g, m))
-        toml = common + ['output_file = "VF.ttf"', "[axis.wght]", 'name = "Weight"', "default = %d" % pos[case["default"]]]
+        mpos = case.get("mpos") or [{"wght": p} for p in pos]
+        axes = list(mpos[0])
+        dflt = mpos[case["default"]]
+        toml = common + ['output_file = "VF.ttf"']
+        for a in axes:
+            toml += ["[axis.%s]" % a, 'name = "%s"' % {"wght": "Weight", "wdth": "Width"}[a], "default = %d" % dflt[a]]
         names = case.get("names") or ["m%d" % i for i in range(nm)]
+        omit = case.get("omit_default_axes") or [False] * nm
+        if len(axes) > 1:
+            v.cls("axes:2", "omitted-default-position" if any(omit) else "all-positions-given")
         for m in case.get("order") or range(nm):  # file order, name order and position order are independent
-            toml += ["[master.%s]" % names[m], 'style_name = "M%d"' % m, 'srcs = ["m%d/*.svg"]' % m, "[master.%s.position]" % names[m], "wght = %d" % pos[m]]
+            toml += ["[master.%s]" % names[m], 'style_name = "M%d"' % m, 'srcs = ["m%d/*.svg"]' % m, "[master.%s.position]" % names[m]]
+            given = [a for a in axes if not (omit[m] and mpos[m][a] == dflt[a])] or axes[:1]
+            toml += ["%s = %d" % (a, mpos[m][a]) for a in given]
         ws.write("vf.toml", "\n".join(toml) + "\n")
         rc, out = ws.run(["nanoemoji", "--build_dir", "build_vf", "vf.toml"], ninja_j=4)
         if rc != 0:
@@ -129,15 +163,24 @@ def judge(case):
                 v.discard = "masters incompatible"
                 v.extra["discard_detail:" + tail(out, 1)[:60]] = 1
                 return v
+            if any(omit) and "Unable to find 1 position" in out:
+                # leaving out the position on an axis is not documented; the tool accepts it only in some master orders and
+                # refuses it cleanly otherwise - a refusal is fine, only an accepted configuration is judged
+                v.rejected = "omitted axis position refused"
+                return v
             v.fail("vf-build-failed", tail(out, 1)[:50], {"out": tail(out, 14)})
             return v
         vf = TTFont(ws.path("build_vf", "VF.ttf"), lazy=False)
         if "fvar" not in vf:
             v.fail("no-fvar", "fvar", {})
             return v
-        ax = vf["fvar"].axes[0]
-        if (ax.minValue, ax.defaultValue, ax.maxValue) != (pos[0], pos[case["default"]], pos[-1]):
-            v.fail("axis-range", "fvar", {"got": (ax.minValue, ax.defaultValue, ax.maxValue), "want": (pos[0], pos[case["default"]], pos[-1])})
+        for ax in vf["fvar"].axes:
+            vals = [mp.get(ax.axisTag) for mp in mpos]
+            want = (min(vals), dflt[ax.axisTag], max(vals)) if None not in vals else None
+            if (ax.minValue, ax.defaultValue, ax.maxValue) != want:
+                v.fail("axis-range", "fvar", {"axis": ax.axisTag, "got": (ax.minValue, ax.defaultValue, ax.maxValue), "want": want})
+        if sorted(a.axisTag for a in vf["fvar"].axes) != sorted(axes):
+            v.fail("axis-range", "fvar axes", {"got": [a.axisTag for a in vf["fvar"].axes], "want": axes})
         statics = []
         for m in range(nm):
             toml = common + ['output_file = "S%d.ttf"' % m, "[axis.wght]", 'name = "Weight"', "default = 400", "[master.r]", 'style_name = "R"', 'srcs = ["m%d/*.svg"]' % m, "[master.r.position]", "wght = 400"]
@@ -151,7 +194,7 @@ def judge(case):
         if grad and varstore:
             v.cls("colr-varstore")
         bud = Budget("colr", mt["upem"], 0.1, (mt["ascender"] - mt["descender"]) / 100.0, extra_tau=1.5, symmetric=True)
-        locs = [({"wght": pos[m]}, m) for m in range(nm)] + [(None, case["default"])]
+        locs = [(dict(mpos[m]), m) for m in range(nm)] + [(None, case["default"])]
         for loc, m in locs:
             rd_v = ColrReader(vf, location=loc)
             rd_s = ColrReader(statics[m])
@@ -178,9 +221,14 @@ def judge(case):
                 if (bv is None) != (bs is None) or (bv and any(abs(a - b) > 1.01 for a, b in zip(bv, bs))):
                     v.fail("clipbox-at-master", "clip box at the master location differs from the static build", {"master": m, "vf": bv, "static": bs})
         # clip box contains the interpolated geometry along the axis
-        for k in range(1, 6):
-            w = pos[0] + (pos[-1] - pos[0]) * k / 6.0
-            rd = ColrReader(vf, location={"wght": w})
+        probes = []
+        for a in axes:
+            lo, hi = min(mp[a] for mp in mpos), max(mp[a] for mp in mpos)
+            probes += [dict(dflt, **{a: lo + (hi - lo) * k / 6.0}) for k in range(1, 6)]
+        if len(axes) > 1:  # and off both axes at once
+            probes += [{a: (min(mp[a] for mp in mpos) + max(mp[a] for mp in mpos)) / 2.0 for a in axes}]
+        for w in probes:
+            rd = ColrReader(vf, location=w)
             for g in case["glyphs"]:
                 gv = shape(vf, g["cps"])
                 if not gv or len(gv) != 1:
@@ -191,11 +239,11 @@ def judge(case):
                     if b is None:
                         continue
                     if box is None:
-                        v.fail("clipbox-missing", "at location", {"wght": w})
+                        v.fail("clipbox-missing", "at location", {"location": w})
                         break
                     eps = (0.71 + 0.001 * mt["upem"]) + 1.5
                     prot = max(box[0] - b[0], box[1] - b[1], b[2] - box[2], b[3] - box[3])
                     if prot > eps:
-                        v.fail("clipbox-cuts-interpolated", "clip box at an intermediate location does not contain the geometry", {"wght": w, "box": box, "bounds": b, "protrusion": prot})
+                        v.fail("clipbox-cuts-interpolated", "clip box at an intermediate location does not contain the geometry", {"location": w, "box": box, "bounds": b, "protrusion": prot})
                         break
     return v
